@@ -35,6 +35,22 @@ def cases(draw):
     spec = draw(specs.model_spec(max_mets=5, max_rxns=7, min_rxns=2, families=("pathway", "pathway", "sparse"), palette="finite", gprs=False,
                                  objective="nonneg", solvers=("glpk",), directions=("max", "max", "max", "min")))
     n = len(spec["rxns"])
+    # construction of the case where the objective row matters below the optimum: the objective reaction may run backwards
+    # and another reaction is forced to carry flux, so that the cheapest distribution would push the objective below the
+    # required level (also at fraction 0)
+    if draw(st.sampled_from([False, False, True])) and n >= 2 and spec["objective"]:
+        spec = {**spec, "rxns": [dict(r) for r in spec["rxns"]]}
+        by_id = {r["id"]: r for r in spec["rxns"]}
+        for rid in spec["objective"]:
+            if by_id[rid]["lb"] >= 0:
+                by_id[rid]["lb"] = draw(st.sampled_from([-10, -5, -100]))
+        others = [r for r in spec["rxns"] if r["id"] not in spec["objective"]]
+        if others:
+            r = others[draw(st.integers(0, len(others) - 1))]
+            if r["ub"] >= 1 and r["lb"] <= 0:
+                r["lb"] = 1
+            elif r["lb"] <= -1 and r["ub"] >= 0:
+                r["ub"] = -1
     return {
         "spec": spec,
         "path": draw(st.sampled_from(build.BUILD_PATHS)),
@@ -116,6 +132,10 @@ def check_case(case, ctx):
         if abs(total - float(T)) > TOL * max(1.0, float(T)):
             _v("pfba:not-parsimonious", f"sum|v| = {total!r}, exact minimum {T}")
         fba_total = sum(abs(float(x)) for x in res.x)
+        if fraction != 1:
+            flp = oracles.FluxLP(spec2, (), with_abs=True)
+            t0 = flp.lp.solve(flp.abs_objective(), "min")
+            classes.append("~objective-row-binding-below-optimum" if t0.status == "optimal" and t0.value < T else "~objective-row-slack")
         return {"nontrivial": T < fba_total or T > 0, "classes": classes}
 
     # ---- MOMA / ROOM on a knock-out state --------------------------------------------------------------
@@ -198,10 +218,18 @@ def check_case(case, ctx):
         return {"nontrivial": D > 0, "classes": classes}
     # ROOM
     delta, eps = case["delta"], case["epsilon"]
+    exact_lo = None
     if method == "room_linear":
         ex = oracles.room_linear(spec_ko, reference, 0, 0)
         exact_val = None if ex.status != "optimal" else float(ex.value)
         exact_hi = exact_val
+        # The linear formulation has zero-width bands around floating-point reference fluxes. A reference that sits on a
+        # bound up to round-off (1.0000000000000002 on a lower bound of 1) makes the exact problem on the float inputs
+        # need y = 1 where any solver with a feasibility tolerance needs y = 0. A correct answer lies between the exact
+        # optimum with bands widened by the solver's feasibility tolerance and the exact optimum itself.
+        scale = max([1.0] + [abs(v) for v in reference.values()])
+        ex_lo = oracles._room(spec_ko, reference, 0, 0, (), binary=None, slack=1e-7 * scale)
+        exact_lo = None if ex_lo.status != "optimal" else float(ex_lo.value)
     else:
         scale = max([1.0] + [abs(v) for v in reference.values()])
         st_, k = oracles.room_binary(spec_ko, reference, delta, eps, slack=1e-7 * scale)  # bands a hair wider: lower bound
@@ -222,6 +250,9 @@ def check_case(case, ctx):
         undetermined = 1
         if exact_val - 1e-4 <= sol.objective_value <= exact_hi + 1e-4:
             return {"nontrivial": False, "classes": classes + ["room-band-edge"], "undetermined": 1}
+    if method == "room_linear" and exact_lo is not None and exact_val - exact_lo > 1e-4 * max(1.0, exact_val):
+        if exact_lo - 1e-4 <= sol.objective_value <= exact_val + 1e-4:
+            return {"nontrivial": False, "classes": classes + ["room-linear-reference-on-bound-roundoff"], "undetermined": 1}
     if abs(sol.objective_value - exact_val) > 1e-4 * max(1.0, exact_val):
         _v("room:not-minimal", f"{method}: reported objective {sol.objective_value!r}, exact minimum of the documented formulation {exact_val} "
                                f"(delta={delta}, epsilon={eps}, knocked {knocked})")
